@@ -26,27 +26,28 @@ GEN_FILES = ["GenProfile", "GenInternalGit"]
 DRIVERS = ["profile"]
 THEOREMS = ["C12_strip_safe", "C12_pins_present", "C12_profile_pins", "C12_config_independent", "C12_drop_complete",
             "C12_nodash_tame", "C12_algorithm_override_refuted", "C12_split_value_override_refuted",
-            "C12_pin_shadowed_refuted", "C12_profile_pins_all_args_refuted", "C12_inventory_pinned",
-            "C12_global_args_normalised", "C12_global_mix_refuted", "C12_no_pager", "C12_hooks_prefix_keeps_subcommand",
-            "C12_ex_canonical_patch", "C12_ex_config_matters_unpinned", "C12_ex_pinned", "C12_ex_hyps"]
+            "C12_pin_not_shadowed", "C12_profile_pins_all_args_refuted", "C12_inventory_pinned",
+            "C12_global_args_normalised", "C12_global_args_end_in_root", "C12_no_pager", "C12_hooks_prefix_keeps_subcommand",
+            "C12_ex_canonical_patch", "C12_ex_config_matters_unpinned", "C12_ex_pinned", "C12_ex_hyps", "C12_ex_global_mix"]
 CLAIM = {
     "text": "Partial proof. Machine-checked (Coq 8.16.1, closed) over an executable Gallina model of "
             "first_git_subcommand_index, strip_profile_conflicts, profile_options, args_with_internal_git_profile, "
-            "args_with_disabled_hooks_if_needed, global_args_for_exec and find_repository's global-arg normalisation, "
-            "plus a trusted table of git 2.39's diff options / configuration keys (effective_fmt: last matching option, "
-            "else the configuration key, else git's default): for EVERY configuration and EVERY argument vector in which no "
-            "pinned option occurs outside the option region and every option the strip leaves in place is tame, every format "
+            "args_with_disabled_hooks_if_needed, global_args_for_exec and find_repository's global-arg normalisation "
+            "(absolutize_git_dir_and_work_tree, resolve_command_base_dir), plus a trusted table of git 2.39's diff options / "
+            "configuration keys (effective_fmt: last matching option, else the configuration key, else git's default): for EVERY "
+            "configuration and EVERY argument vector in which every option the strip leaves in place is tame, every format "
             "component the profile pins has its canonical value (C12_profile_pins, C12_config_independent); the strip removes "
             "nothing after `--`, nothing for General, and the subcommand is found behind value-taking globals (C12_strip_safe); "
-            "every pinned option is present before `--` after the subcommand, once when the caller did not pass it "
-            "(C12_pins_present); the drop list is complete for every pinned component except (PatchParse, algorithm) "
-            "(C12_drop_complete); tokens without a leading dash are tame (C12_nodash_tame). The three hypotheses are necessary "
-            "(C12_*_refuted), so the unrestricted statement is false (C12_profile_pins_all_args_refuted). Every one of the "
-            "internal git invocation templates found by the whole-tree scan that is parsed fixes the components its parser "
-            "needs, up to 8 listed exceptions, each needed (C12_inventory_pinned). Global args are normalised exactly for the "
-            "shapes [] and [-C x] (C12_global_args_normalised, C12_global_mix_refuted). The end-to-end statement (notes and "
-            "blame equal the baseline's under every configuration and context) is decided by the metamorphic oracle on the "
-            "real binary; it fails in four known classes (C12-K1..K4), each with a witness reproduced on the binary.",
+            "every pinned option is present before `--` after the subcommand for every vector with a subcommand "
+            "(C12_pins_present, C12_pin_not_shadowed); the drop list is complete for every pinned component except (PatchParse, "
+            "algorithm) (C12_drop_complete); tokens without a leading dash are tame (C12_nodash_tame). The tameness hypothesis "
+            "is necessary (C12_*_refuted), so the unrestricted statement is false (C12_profile_pins_all_args_refuted); no "
+            "internal caller passes such options. Every one of the internal git invocation templates found by the whole-tree "
+            "scan that is parsed fixes the components its parser needs (status with an explicit --untracked-files), up to 7 listed "
+            "exceptions, each needed (C12_inventory_pinned). Global args of every shape are normalised so that a well-formed vector "
+            "ends in the repository root (C12_global_args_normalised, C12_global_args_end_in_root). The end-to-end statement (notes "
+            "and blame equal the baseline's under every configuration and context) is decided by the metamorphic oracle on the real "
+            "binary; the four former known classes C12-K1..K4 are regression witnesses that must pass.",
     "design_ref": "DESIGN.md §4 C12",
     "note": "Trusted: Coq kernel; translators GenProfile/GenInternalGit; ExtrOcamlBasic extraction + driver; harness; the "
             "git-side option/config table of Model/Profile.v PART 2 (validated differentially against /usr/bin/git on every "
@@ -146,7 +147,7 @@ SETTINGS = {
     "status_display": {"cfg": [("status", "relativePaths", "false"), ("status", "short", "true"), ("status", "branch", "true"),
                                ("status", "showStash", "true"), ("status", "aheadBehind", "false")]},
     "status_untracked_all": {"cfg": [("status", "showUntrackedFiles", "all")]},
-    "status_untracked_no": {"cfg": [("status", "showUntrackedFiles", "no")], "weight": 1},     # known class C12-K3
+    "status_untracked_no": {"cfg": [("status", "showUntrackedFiles", "no")]},                  # formerly known class C12-K3
     # --- commit display
     "commit_display": {"cfg": [("commit", "verbose", "true"), ("commit", "status", "false")]},
 }
@@ -168,16 +169,16 @@ CONTEXTS = {
     "gitdir_out": (["--git-dir={gitdir}", "--work-tree={root}"], "out"),
     "worktree": ([], "root"),
     "worktree_subdir": ([], "sub"),
-    # known class C12-K1: global args of another shape than [] / [-C x] AND the effective directory is a
-    # strict subdirectory of the work tree
+    # formerly known class C12-K1 (global args of another shape than [] / [-C x], started below the root)
     "c_sub": (["-c", "c12.x=y"], "sub"),
     "nopager_sub": (["--no-pager"], "sub"),
     "c_dashC_sub": (["-c", "c12.x=y", "-C", "{sub}"], "root"),
     "dashC_dashC_sub": (["-C", "{root}", "-C", "{sub}"], "out"),
     "gitdir_sub": (["--git-dir={gitdir}", "--work-tree={root}"], "sub"),
+    "gitdir_rel_sub": (["--git-dir={relgit}", "--work-tree", "{relroot}"], "sub"),
 }
-K1_CONTEXTS = {"c_sub", "nopager_sub", "c_dashC_sub", "dashC_dashC_sub", "gitdir_sub"}
-OK_CONTEXTS = [c for c in sorted(CONTEXTS) if c not in K1_CONTEXTS]
+K1_CONTEXTS = {"c_sub", "nopager_sub", "c_dashC_sub", "dashC_dashC_sub", "gitdir_sub", "gitdir_rel_sub"}   # regression witnesses now
+OK_CONTEXTS = sorted(CONTEXTS)
 
 
 def normalised_shape(gargs):
@@ -245,7 +246,9 @@ class CSim(Sim):
         os.makedirs(out, exist_ok=True)
         cwd = {"root": self.repo, "sub": os.path.join(self.repo, self.subdir), "out": out}[where]
         rc, gd, _ = (0, os.path.join(self.main_repo, ".git"), "")
-        fmt = {"root": self.repo, "rel": os.path.relpath(self.repo, out), "sub": self.subdir, "gitdir": gd}
+        subabs = os.path.join(self.repo, self.subdir)
+        fmt = {"root": self.repo, "rel": os.path.relpath(self.repo, out), "sub": self.subdir, "gitdir": gd,
+               "relgit": os.path.relpath(gd, subabs), "relroot": os.path.relpath(self.repo, subabs)}
         return [a.format(**fmt) for a in pre], cwd
 
     def git(self, *args, cwd=None, env_extra=None, stdin=None):
@@ -340,24 +343,16 @@ def untracked_ai_file(script):
 
 
 def known_class(script, settings, context):
-    """the listed known classes a draw belongs to (decidable on the input)"""
-    ks = []
-    if context in K1_CONTEXTS:
-        ks.append("C12-K1")
-    if "status_untracked_no" in settings and untracked_ai_file(script):
-        ks.append("C12-K3")
-    return ks
+    """the listed known classes a draw belongs to (decidable on the input).  C12-K1..K4 are repaired: nothing is excused."""
+    return []
 
 
 def gen_draw(r, tier_weight_known=True):
     k = r.weighted([(3, 1), (4, 2), (3, 3), (2, 4), (1, 6)])
-    pool = [s for s in SETTING_NAMES if s != "status_untracked_no"]
     chosen = set()
     while len(chosen) < k:
-        chosen.add(r.pick(pool))
-    if r.chance(1, 12):
-        chosen.add("status_untracked_no")
-    ctx = r.weighted([(5, "root")] + [(2, c) for c in OK_CONTEXTS if c != "root"] + [(1, c) for c in sorted(K1_CONTEXTS)])
+        chosen.add(r.pick(SETTING_NAMES))
+    ctx = r.weighted([(5, "root")] + [(2, c) for c in OK_CONTEXTS if c != "root"])
     where = {s: r.weighted([(3, "home"), (1, "repo")]) for s in sorted(chosen)}
     return sorted(chosen), ctx, where
 
@@ -469,14 +464,10 @@ def oracle_rewrite(p, a, awp, pins):
     bad = [t for t in b2 if o_override(p, t)]
     if bad:
         return (False, f"overriding option(s) {bad} survive", False)
-    shadowed = False
     for o in O_REQUIRED[p]:
         if o not in b2:
-            if o in g or o in d:
-                shadowed = True            # known class C12-K2 at the argv level
-            else:
-                return (False, f"neutralising option {o} is missing before `--`", False)
-    return (True, "", shadowed)
+            return (False, f"neutralising option {o} is missing before `--`", False)
+    return (True, "", False)
 
 
 def enc(v):
@@ -576,8 +567,6 @@ def inprocess(ctx, obligations, violations, known_seen, cov):
     obligations.append(("tie:correspondence Model/Profile.v vs first_git_subcommand_index / strip_profile_conflicts / "
                         "args_with_internal_git_profile", (not mism) and ctx.model_ok,
                         "; ".join(mism[:3]) if mism else ("" if ctx.model_ok else "model did not build")))
-    if n_shadow:
-        known_seen.add(KNOWN_TEXT["C12-K2"])
     # exec_git_with_profile's whole pipeline (hook prefix + profile)
     ecases = [(f"e{k}", f"{d} {p} {enc(v)}") for k, (d, p, v) in enumerate(
         [(d, p, v) for d in (0, 1) for p in range(4)
@@ -598,7 +587,7 @@ def inprocess(ctx, obligations, violations, known_seen, cov):
         bad = []
         for i, p, v, awp in hyp_cases:
             f = fields(hm.get(i, ""))
-            if f.get("found") == 1 and f.get("outside") == 1 and f.get("tame") == 1:
+            if f.get("found") == 1 and f.get("tame") == 1:
                 n_hyp += 1
                 k = o_find_sub(awp)
                 b2, _ = split_dd(awp[k + 1:])
@@ -610,13 +599,102 @@ def inprocess(ctx, obligations, violations, known_seen, cov):
                         bad.append(f"{PROFILE_NAMES[p]} {v} -> {awp}: last of {fam} is {last[-1:]}")
         obligations.append(("monitor:under the hypotheses of C12_profile_pins the last option of each pinned family is the "
                             "neutral one (independent reading of the implementation's argv)", not bad, "; ".join(bad[:2])[:500]))
-        cov["hypothesis_hit_rate"] = {"C12_profile_pins(found, pins not outside, survivors tame)": f"{n_hyp}/{len(hyp_cases)}"}
+        cov["hypothesis_hit_rate"] = {"C12_profile_pins(found, survivors tame)": f"{n_hyp}/{len(hyp_cases)}"}
     cov["evaluations"] += len(cases) + len(ecases)
     cov["argv_vectors_changed_by_profile"] = n_changed
     cov["argv_kinds"] = kinds
-    cov["argv_shadowed_pin_vectors"] = n_shadow
     cov["samples"].append({"case": "argv", "profile": "PatchParse", "argv": cases[-1][2], "impl": impl.get(cases[-1][0], "")[:300]})
     return distinct
+
+
+# ====================================================================== find_repository's normalisation of global args
+def normalisation(ctx, obligations, violations, cov):
+    """find_repository (real, in-process, started in several directories) vs Model normalize_global_args, and the property
+    itself: internal commands built from the repository's global args run in the work tree root (git rev-parse
+    --show-prefix is empty, --show-toplevel is the root), whatever shape the user's global args had."""
+    import subprocess
+    r = ctx.rng.fork("norm")
+    base = os.path.realpath(os.path.join(ctx.scratch, "norm"))
+    repo = os.path.join(base, "repo")
+    sub = os.path.join(repo, "sub", "deep")
+    out = os.path.join(base, "outside")
+    home = os.path.join(base, "home")
+    for d in (sub, out, home):
+        os.makedirs(d)
+    env = {"PATH": os.environ.get("PATH", "/usr/bin:/bin"), "HOME": home, "GIT_CONFIG_GLOBAL": os.path.join(home, ".gitconfig"),
+           "GIT_CONFIG_NOSYSTEM": "1", "LC_ALL": "C"}
+    with open(os.path.join(home, ".gitconfig"), "w") as f:
+        f.write("[user]\n\tname = T\n\temail = t@example.com\n")
+    subprocess.run(["/usr/bin/git", "init", "-q", repo], env=env, check=True)
+    with open(os.path.join(sub, "f.txt"), "w") as f:
+        f.write("x\n")
+    subprocess.run(["/usr/bin/git", "-C", repo, "add", "-A"], env=env, check=True)
+    subprocess.run(["/usr/bin/git", "-C", repo, "commit", "-q", "-m", "one"], env=env, check=True)
+    gd = os.path.join(repo, ".git")
+    fixed = [
+        (repo, []), (sub, []), (out, ["-C", repo]), (repo, ["-C", "sub"]), (sub, ["-C", "."]), (out, ["-C", os.path.relpath(sub, out)]),
+        (sub, ["-c", "c12.x=y"]), (sub, ["--no-pager"]), (repo, ["-c", "c12.x=y", "-C", "sub/deep"]), (out, ["-C", repo, "-C", "sub"]),
+        (sub, ["--git-dir=" + gd, "--work-tree=" + repo]), (sub, ["--git-dir=../../.git", "--work-tree=../.."]),
+        (sub, ["--git-dir", "../../.git", "--work-tree", "../.."]), (sub, ["--work-tree", "../..", "--git-dir=../../.git"]),
+        (repo, ["-C", "sub", "--git-dir=../.git", "--work-tree=.."]), (out, ["--git-dir=" + gd, "--work-tree=" + repo]),
+        (repo, ["--git-dir=.git"]), (sub, ["--no-pager", "-c", "a.b=c", "-C", ".."]), (sub, ["-p"]), (repo, ["--no-pager"]),
+        (sub, ["-C", repo, "--no-pager"]), (sub, ["--no-optional-locks", "-C", "."]), (out, []), (out, ["-c", "a.b=c"]),
+        (sub, ["-c", "--git-dir", "--no-pager"]),
+    ]
+    units = [["-C", "."], ["-C", "sub"], ["-C", ".."], ["-C", repo], ["-c", "a.b=c"], ["--no-pager"], ["--git-dir=" + gd],
+             ["--git-dir=../../.git"], ["--git-dir", gd], ["--work-tree=" + repo], ["--work-tree=../.."], ["--work-tree", ".."],
+             ["--no-optional-locks"], ["--literal-pathspecs"], ["-C", "deep"]]
+    cases = list(fixed)
+    for _ in range(150 if ctx.tier == "quick" else 1500):
+        ga = [t for _ in range(r.range(1, 3)) for t in r.pick(units)]
+        cases.append((r.pick([repo, sub, os.path.join(repo, "sub")]), ga))
+    ids = [(f"n{k}", cwd, ga) for k, (cwd, ga) in enumerate(cases)]
+    impl = C.run_cases(C.VHARNESS, "c12-normalize", [(i, f"{C.sx(C.cps(cwd))} {enc(ga)}") for i, cwd, ga in ids], shards=1)
+    tops, gds = {}, {}
+    for i, cwd, ga in ids:
+        if impl.get(i) not in (None, "panic", "err"):
+            rc = subprocess.run(["/usr/bin/git"] + ga + ["rev-parse", "--show-toplevel"], cwd=cwd, env=env, stdout=subprocess.PIPE,
+                                stderr=subprocess.PIPE)
+            tops[i] = rc.stdout.decode().strip()
+            rc = subprocess.run(["/usr/bin/git"] + ga + ["rev-parse", "--git-dir"], cwd=cwd, env=env, stdout=subprocess.PIPE,
+                                stderr=subprocess.PIPE)
+            gds[i] = rc.stdout.decode().strip()
+    model = C.run_cases(C.driver_path("profile"), "c12-normalize",
+                        [(i, f"{C.sx(C.cps(cwd))} {C.sx(C.cps(tops[i]))} {C.sx(C.cps(gds[i]))} {enc(ga)}")
+                         for i, cwd, ga in ids if i in tops],
+                        shards=1) if ctx.model_ok else {}
+    mism, n_ok, n_other_shape, shapes = [], 0, 0, {}
+    for i, cwd, ga in ids:
+        a = impl.get(i)
+        if a is None or a == "panic":
+            violations.append((f"find_repository panicked for global args {ga} in {cwd}", {"kind": "normalize", "cwd": cwd, "global_args": ga}))
+            continue
+        if a == "err":
+            continue                       # git itself rejects the vector (or it names another repository)
+        got = dec_list(C.sx_parse_many(a)[0][1])
+        top = tops[i]
+        n_ok += 1
+        shape = "[]" if not ga else ("[-C x]" if len(ga) == 2 and ga[0] == "-C" else "other")
+        shapes[shape] = shapes.get(shape, 0) + 1
+        if ctx.model_ok and model.get(i) != a:
+            mism.append(f"cwd {cwd} global args {ga}: impl {got} model {model.get(i)}")
+        # the property: internal commands run in the top level the user's own command sees
+        p2 = subprocess.run(["/usr/bin/git"] + got + ["rev-parse", "--show-toplevel", "--show-prefix"], cwd=cwd, env=env,
+                            stdout=subprocess.PIPE, stderr=subprocess.PIPE)
+        lines = p2.stdout.decode().split("\n")
+        if p2.returncode != 0 or lines[0] != top or (len(lines) > 1 and lines[1] != ""):
+            violations.append((f"internal git commands do not run in the work tree root: user global args {ga} started in {cwd} "
+                               f"-> internal global args {got}: toplevel/prefix {lines[:2]} (user's toplevel {top})",
+                               {"kind": "normalize", "cwd": cwd, "global_args": ga, "internal_global_args": got,
+                                "show": lines[:2], "stderr": p2.stderr.decode()[-200:]}))
+        if shape == "other":
+            n_other_shape += 1
+    if ctx.model_ok:
+        obligations.append(("tie:correspondence Model normalize_global_args / resolve_command_base_dir / global_args_for_exec vs "
+                            "find_repository (in-process, real directories)", not mism, "; ".join(mism[:2])[:600]))
+    cov["normalisation"] = {"cases": len(ids), "accepted_by_git": n_ok, "shapes": shapes}
+    cov["evaluations"] += len(ids)
+    return n_other_shape
 
 
 # ====================================================================== git-side table validation
@@ -783,7 +861,7 @@ def gtable(ctx, obligations, cov):
                 bad.append(f"{name}: git shows {got!r}, model expects {want!r} for argv {argv[2:]} (model {m})")
         # the profile's promise itself, observed: with the hypotheses, pinned output is free of configuration effects
         f = fields(hyp.get(i, ""))
-        if p == 1 and f.get("found") == 1 and f.get("outside") == 1 and f.get("tame") == 1:
+        if p == 1 and f.get("found") == 1 and f.get("tame") == 1:
             n_pinned_ok += 1
             if ob["color"] or ob["garbage"] or ob["upper"] or ob["src"] not in ("a/", None) or ob["dst"] not in ("b/", None) \
                     or ob["s_has_dir"] is False:
@@ -843,21 +921,27 @@ def _simple(sim, files, path, new_text):
 
 
 def witness_k1(base):
-    """C12-K1 (F15): `git -c k=v commit` from a subdirectory: the commit gets no attribution"""
+    """formerly C12-K1 (F15): `git -c k=v commit` (and the other shapes) started from a subdirectory"""
     files = {"f.txt": "l1\nl2\n", "sub/g.txt": "g1\n"}
     a = CSim(base, "k1a")
-    b = CSim(base, "k1b", context="c_sub")
     try:
         ra = _simple(a, files, "f.txt", "l1\nai\nl2\n")
-        rb = _simple(b, files, "f.txt", "l1\nai\nl2\n")
-        return ra != rb, {"baseline": ra, "variant": rb, "context": "git -c c12.x=y commit, started in sub/"}
     finally:
         shutil.rmtree(a.base, ignore_errors=True)
-        shutil.rmtree(b.base, ignore_errors=True)
+    bad = {}
+    for c in sorted(K1_CONTEXTS):
+        b = CSim(base, "k1" + c, context=c)
+        try:
+            rb = _simple(b, files, "f.txt", "l1\nai\nl2\n")
+            if rb != ra:
+                bad[c] = rb
+        finally:
+            shutil.rmtree(b.base, ignore_errors=True)
+    return bool(bad), {"baseline": ra, "differing_contexts": bad}
 
 
 def witness_k2(base):
-    """C12-K2: a tracked file named like a pinned option + diff.external"""
+    """formerly C12-K2: a tracked file named like a pinned option + diff.external"""
     files = {"f.txt": "l1\n", "--no-ext-diff": "a1\na2\n"}
     a = CSim(base, "k2a")
     b = CSim(base, "k2b", settings=["external"])
@@ -871,7 +955,7 @@ def witness_k2(base):
 
 
 def witness_k3(base):
-    """C12-K3: status.showUntrackedFiles=no + a file the agent creates"""
+    """formerly C12-K3: status.showUntrackedFiles=no + a file the agent creates"""
     files = {"f.txt": "l1\n"}
     a = CSim(base, "k3a")
     b = CSim(base, "k3b", settings=["status_untracked_no"])
@@ -885,10 +969,10 @@ def witness_k3(base):
 
 
 def witness_k4(base):
-    """C12-K4: cherry-pick (slow path) of a commit that renames a file: diff_tree_to_tree runs `git diff --raw -z`
-    without --no-renames, so the records follow diff.renames"""
+    """formerly C12-K4: cherry-pick (slow path) of a commit that renames a file: the note must not depend on diff.renames
+    (diff_tree_to_tree now passes --no-renames); all three settings must agree"""
     res = {}
-    for nm, st in (("default", []), ("renames_false", ["renames_false"])):
+    for nm, st in (("default", []), ("renames_false", ["renames_false"]), ("renames_copies", ["renames_copies"])):
         s = CSim(base, "k4" + nm, settings=st)
         try:
             body = "".join(f"line {i}\n" for i in range(1, 11))
@@ -918,7 +1002,7 @@ def witness_k4(base):
             res[nm] = (rc, None if n is None else hist.jsonable(note_as_sets(n)), s.blame("new.txt"))
         finally:
             shutil.rmtree(s.base, ignore_errors=True)
-    return res["default"] != res["renames_false"], res
+    return not (res["default"] == res["renames_false"] == res["renames_copies"]), res
 
 
 # ====================================================================== executed-argv monitor
@@ -967,6 +1051,7 @@ def run(ctx):
     cov = {"evaluations": 0, "samples": [], "input_distribution": {}}
 
     distinct = inprocess(ctx, obligations, violations, known_seen, cov)
+    n_norm = normalisation(ctx, obligations, violations, cov)
     gtable(ctx, obligations, cov)
     inventory(ctx, obligations, cov)
 
@@ -988,7 +1073,7 @@ def run(ctx):
             for k in range(0, len(pairs), 60):
                 items.append((ctx.scratch, ctx.seed, 20000 + i, pairs[k:k + 60], f"{20000 + i}c{k}"))
     res = C.parallel_map(scenario, items)
-    n_var = n_same = n_known_fail = 0
+    n_var = n_same = 0
     set_hist, ctx_hist, kinds = {}, {}, {}
     hist_distinct = set()
     for r_ in res:
@@ -1007,11 +1092,6 @@ def run(ctx):
             if v["same"]:
                 n_same += 1
                 continue
-            if v["known"]:
-                n_known_fail += 1
-                for k in v["known"]:
-                    known_seen.add(KNOWN_TEXT[k])
-                continue
             violations.append((f"notes/blame differ from the baseline run under settings {v['settings']} in context {v['context']} "
                                f"after {str(r_['steps'])[:200]}",
                                {"kind": "metamorphic", "steps": r_["steps"], "settings": v["settings"], "context": v["context"],
@@ -1021,22 +1101,21 @@ def run(ctx):
             cov["samples"].append({"case": "metamorphic", "steps": r_["steps"][:6], "settings": v["settings"],
                                    "context": v["context"], "same_as_baseline": v["same"], "known": v["known"]})
 
-    # ---- fixed witnesses of the known classes
+    # ---- regression witnesses of the repaired classes C12-K1..K4: each must now agree with its baseline
     for name, fn in (("C12-K1", witness_k1), ("C12-K2", witness_k2), ("C12-K3", witness_k3), ("C12-K4", witness_k4)):
         still, detail = fn(ctx.scratch)
-        cov.setdefault("witnesses", {})[name] = {"still_fails": still, "detail": str(detail)[:600]}
+        cov.setdefault("regression_witnesses", {})[name] = {"fails": still, "detail": str(detail)[:600]}
         if still:
-            known_seen.add(KNOWN_TEXT[name])
+            violations.append((f"regression witness of {REGRESSION_TEXT[name]}", {"kind": "witness", "class": name, "detail": detail}))
 
     cov["evaluations"] += n_var + len(res)
-    cov["distinct_nontrivial"] = len(distinct) + len(hist_distinct)
+    cov["distinct_nontrivial"] = len(distinct) + len(hist_distinct) + n_norm
     cov["rule"] = ("in-process: argument vectors (exhaustive <=2 over a 41-token alphabet, exhaustive 3 over 17 tokens, all tails <=3 "
                    "behind `-C /w --no-pager diff`, random longer vectors) x profiles; non-trivial = the profile changes the vector; "
                    "distinct by (profile, vector).  system level: generated histories (vlib/hist.py) x (settings, context) draws; "
                    "non-trivial = at least one AI edit; distinct by (edit script, settings, context)")
     cov["input_distribution"] = {"settings": set_hist, "contexts": ctx_hist, "edit_kinds": kinds}
-    cov["metamorphic"] = {"histories": len(res), "variants": n_var, "equal_to_baseline": n_same,
-                          "differences_in_known_classes": n_known_fail}
+    cov["metamorphic"] = {"histories": len(res), "variants": n_var, "equal_to_baseline": n_same}
     return {
         "obligations": obligations,
         "violations": violations,
@@ -1048,14 +1127,12 @@ def run(ctx):
     }
 
 
-KNOWN_TEXT = {
-    "C12-K1": "C12-K1 global args of another shape than [] / [-C x] (e.g. `git -c k=v commit`, `git --no-pager commit`, "
-              "`-C a -C b`, --git-dir/--work-tree) are not normalised: started below the work tree root the commit gets an "
-              "empty note (F15)",
-    "C12-K2": "C12-K2 a tracked file (pathspec) named exactly like a pinned option, e.g. `--no-ext-diff`: the option is "
-              "considered already present and is not inserted, the configured external diff / colour reaches the parser",
-    "C12-K3": "C12-K3 status.showUntrackedFiles=no: files the agent creates are invisible to `git status --porcelain=v2` "
-              "(no --untracked-files option is passed) and get no attribution",
-    "C12-K4": "C12-K4 cherry-pick (slow path) of a commit that renames a file: diff_tree_to_tree runs `git diff --raw -z` "
-              "without --no-renames, the note depends on diff.renames (default true: wrong line numbers; false: correct)",
+REGRESSION_TEXT = {
+    "C12-K1": "C12-K1 (repaired): `git -c k=v commit` / `--no-pager` / `-C a -C b` / --git-dir --work-tree started below the work "
+              "tree root must record the same note as a plain `git commit` from the root",
+    "C12-K2": "C12-K2 (repaired): a tracked file named like a pinned option (`--no-ext-diff`) with diff.external set must be "
+              "attributed as without the setting",
+    "C12-K3": "C12-K3 (repaired): status.showUntrackedFiles=no must not hide files the agent creates",
+    "C12-K4": "C12-K4 (repaired): cherry-pick (content replay) of a commit that renames a file must give the same note whatever "
+              "diff.renames says",
 }
